@@ -1000,6 +1000,7 @@ def eval_e2e(case, root):
             exp = db.getda(names=select, fullkey=True, **kw2)
             exp = OrderedDict((k, (np.asarray(v[0], dtype=float), np.asarray(v[1], dtype=float))) for k, v in exp.items())
             forced, same = True, True
+            xtra["processed_samples"] = min(len(v[0]) for v in exp.values())
         except Exception:
             exp = None
     if exp is None or not same:
@@ -1073,6 +1074,8 @@ def eval_e2e(case, root):
         if not any(x in case["kw"] for x in ("filterargs", "taperfrac", "window_len")):
             for k, i, n in zip(keys, order, exp_names):
                 ref = np.interp(exp[k][0], sel[k].t, sel[k].x)
+                if len(got[i][1]) != len(ref):
+                    continue                    # (length mismatch is reported above)
                 rt, at, rx, ax = tolerances(ext if ext != ".pickle" else ".pkl", exp[k][0], ref)
                 sc = max(1.0, float(np.max(np.abs(sel[k].x))))
                 if not np.all(np.abs(got[i][1] - ref) <= 1e-9 * sc + ax + max(rx, 1e-12) * np.abs(ref) + 2e-7 * sc * (ext in (".ts", ".dat"))):
@@ -1172,16 +1175,16 @@ def run(chk):
         for c in core.load_corpus("C07"):
             if c.get("kind") == "e2e":
                 run_e2e(chk, c)
-        corr_check(chk, drv, rng, 500 if q else 6000)
-        corr_cct(chk, drv, rng, 200 if q else 2500)
-        corr_names(chk, drv, rng, 400 if q else 5000)
-        corr_export(chk, drv, rng, 350 if q else 4000, root)
-        corr_codec(chk, drv, rng, 60 if q else 600, root)
+        corr_check(chk, drv, rng, 1500 if q else 30000)
+        corr_cct(chk, drv, rng, 600 if q else 12000)
+        corr_names(chk, drv, rng, 1200 if q else 24000)
+        corr_export(chk, drv, rng, 900 if q else 18000, root)
+        corr_codec(chk, drv, rng, 150 if q else 2400, root)
     finally:
         shutil.rmtree(root, ignore_errors=True)
     for c in corner_cases():
         run_e2e(chk, c)
-    for _ in range(500 if chk.quick else 7000):
+    for _ in range(2000 if chk.quick else 26000):
         run_e2e(chk, gen_e2e(rng))
 
 
